@@ -124,7 +124,8 @@ def parse_attributes(clause):
         else:
             name, expr = groups(m, part)
 
-        if name in seen:
+        # (a dictionary entry has no name; there may be several)
+        if name is not None and name in seen:
             raise LanguageError(
                 "Duplicate attribute name in attributes.", part)
 
